@@ -279,9 +279,20 @@ def gen_C18(tier, rng):
     M = 150 if tier == "quick" else 3000
     for i in range(M):
         yield dict(kind="diag", n=int(rng.integers(1, 31)), m=int(rng.integers(1, 13)), pseed=int(rng.integers(0, 2**31 - 1)))
+    # runs with objective redefinitions (the quantifier of C18 includes them): pairs checked by the C13 monitor
+    from harness.monitors import driver2
+    for c13 in driver2.gen_C13("quick", rng):
+        if c13["kind"] in ("adversarial", "reweight", "rescale"):
+            yield dict(kind="redefinition", c13=c13)
 
 
 def eval_C18(case):
+    if case["kind"] == "redefinition":
+        from harness.monitors import driver2
+        out = driver2.eval_C13(case["c13"])
+        out["key"] = ("redef",) + tuple(out["key"]) if isinstance(out.get("key"), (tuple, list)) else out.get("key")
+        out.setdefault("tags", {})["kind"] = "redefinition"
+        return out
     if case["kind"] == "diag":
         from scipy.optimize import LbfgsInvHessProduct
         from lbfgsb.utils import extract_hess_inv_diag
